@@ -72,6 +72,10 @@ class Methods:
         h = self.object_method(obj, name, args, kwargs)
         if h is not NotImplemented:
             return h
+        if isinstance(obj, (re.Match, bytes, float, set, frozenset)) or type(obj).__module__ in ('hashlib', '_hashlib', 'decimal', '_sha2', '_blake2'):
+            cargs = [self.norm_str(a) for a in args]
+            if all(not isinstance(a, (FixedStr, LongStr)) and not is_sym(a) for a in cargs):
+                return self.native(getattr(obj, name), cargs, kwargs)
         raise Unsupported('method %s on %s' % (name, type(obj).__name__))
 
     def object_method(self, obj, name, args, kwargs):
@@ -184,6 +188,27 @@ class Methods:
                 return obj.get(key, dflt)
             if key is None:
                 return obj.get(None, dflt)
+            if isinstance(key, FixedStr) and len(key) == 1 and not isinstance(key.chars[0], int):
+                ch = key.chars[0]
+                d = self._dom(ch)
+                ks = [k for k in obj if isinstance(k, str) and len(k) == 1 and d.contains(ord(k))]
+                if not ks:
+                    return dflt
+                dch = None
+                if isinstance(dflt, (str, FixedStr)) and len(tostr(dflt)) == 1:
+                    dch = tostr(dflt).chars[0]
+                if dch is not None and all(isinstance(obj[k], str) and len(obj[k]) == 1 for k in ks):
+                    kset = ISet.of(ks)
+                    rest = d.minus(kset)
+                    img = ISet.of([obj[k] for k in ks])
+                    if not rest.empty():
+                        img = img.union(self._dom(dch) if not isinstance(dch, int) and dch is not ch else (rest if dch is ch else ISet([(dch, dch)])))
+                    u = ctx.fresh_char(img, 'm')
+                    e = dch if is_sym(dch) else z3.IntVal(dch)
+                    for k in ks:
+                        e = z3.If(ch == ord(k), ord(obj[k]), e)
+                    ctx.add(u == e)
+                    return FixedStr([u])
             if ctx.branch(self.contains(obj, key)):
                 return self.subscript(obj, key)
             return dflt
